@@ -20,6 +20,10 @@ func (k msgServer) CreateAccount(goCtx context.Context, msg *types.MsgCreateAcco
 		k.Logger(ctx).Error("create account parsing error", "error", err.Error())
 		return nil, err
 	}
+	if acc := k.authKeeper.GetAccount(ctx, accAddress); acc != nil {
+		k.Logger(ctx).Debug("create account - account already exists", "address", msg.AccAddressString)
+		return nil, fmt.Errorf("create account - account %s already exists", msg.AccAddressString)
+	}
 	newAccount := k.authKeeper.NewAccountWithAddress(ctx, accAddress)
 
 	var pk cryptotypes.PubKey
@@ -35,7 +39,7 @@ func (k msgServer) CreateAccount(goCtx context.Context, msg *types.MsgCreateAcco
 		k.Logger(ctx).Error("new account set pub key error", "error", err.Error())
 		return nil, err
 	}
-	k.Logger(ctx).Debug("auth keeper set account", "newAccount", newAccount.String())
+	k.Logger(ctx).Debug("auth keeper set account", "address", msg.AccAddressString, "accountNumber", newAccount.GetAccountNumber())
 	k.authKeeper.SetAccount(ctx, newAccount)
 
 	return &types.MsgCreateAccountResponse{AccountNumber: fmt.Sprint(newAccount.GetAccountNumber())}, nil
